@@ -504,7 +504,9 @@ pub fn build_common(rng: &mut Rng, ctx: &mut Ctx, host: &str) -> (RequestBuilder
             url_path.push_str(&seg);
         }
     }
-    let mut m = Model { method: method.to_owned(), path: intended_path, allow_compression: true, body_kind: "none", ..Default::default() };
+    // (a build of the library without gzip/deflate support never announces Accept-Encoding of its own;
+    //  what the caller supplies goes out as given)
+    let mut m = Model { method: method.to_owned(), path: intended_path, allow_compression: cfg!(feature = "compress"), body_kind: "none", ..Default::default() };
     let mut url = format!("http://{host}{url_path}");
     let nbase = rng.range(0, 2);
     for i in 0..nbase {
@@ -617,6 +619,7 @@ pub fn build_common(rng: &mut Rng, ctx: &mut Ctx, host: &str) -> (RequestBuilder
         }
         _ => {}
     }
+    #[cfg(feature = "compress")]
     if rng.chance(1, 6) {
         rb = rb.allow_compression(false);
         m.allow_compression = false;
